@@ -81,6 +81,8 @@ PROFILES = {
     "dedupdirty": dict(BASE, ntasks=(4, 9), nseg=(2, 4), p_dedup=0.6, p_task=0.2, p_item=0.15, p_dirty=0.45, ndfn=(1, 1), nkeys=1,
                        nkinds=(2, 2)),
     "dedupsync": dict(BASE, ntasks=(3, 9), p_dedup=0.4, p_task=0.25, p_item=0.2, p_dirty=0.25, p_sync=0.2),
+    "overflowbatch": dict(BASE, ntasks=(4, 9), nleaf=(1, 3), p_task=0.45, p_item=0.45, p_sync=0.1, maxstack=(3, 6), ncalls=3,
+                          nkinds=(2, 3), p_catch=0.3),
     "everything": dict(BASE, ntasks=(2, 8), nkinds=(1, 3), bases=(0, 1), p_share=0.1, p_reyield=0.05,
                        flush_modes=("ok", "ok", "itemerr", "skip", "raise"), p_raise=0.08, p_errleaf=0.04, p_bad=0.03,
                        p_catch=0.35, p_sync=0.15, ctx_types=("async", "override"), p_ctx=0.35, nvars=1, p_read=0.3),
@@ -431,4 +433,38 @@ def enum_dedup(max_len=3, bodies=(1, 2), nactors=2):
                 tasks[aid - 1] = {"segs": segs}
             tasks[0] = {"segs": [seg([], term("yield", S("Lst", 0, leaves))), seg([], term("return"))]}
             progs.append(program(tasks))
+    return progs
+
+
+def enum_overflow():
+    """Complete small family for C08 (runaway recursion while requests are pending): computation 1 yields a tuple of
+    1-3 'readers' (each blocked on one item of kind 1 or 2) and one chain of tasks deeper than the stack limit, the
+    chain at any position of the tuple; computation 2 is a task waiting for 1-2 items of kind 1 or 2 in 1-2 rounds."""
+    progs = []
+    for nread in (1, 2, 3):
+        for rk in (1, 2):
+            for pos in range(nread + 1):
+                for maxstack in (3, 5):
+                    for k2 in (1, 2):
+                        for n2 in (1, 2):
+                            for segs2 in (1, 2):
+                                tasks = [None]
+                                leaves = []
+                                for i in range(nread):
+                                    tasks.append({"segs": [seg([], term("yield", S("I", rk))), seg([], term("return"))]})
+                                    leaves.append(S("T", len(tasks)))
+                                first_chain = len(tasks) + 1
+                                depth = maxstack + 3
+                                for d in range(depth):
+                                    last = d == depth - 1
+                                    tasks.append({"segs": [seg([], term("return"))] if last else
+                                                  [seg([], term("yield", S("T", len(tasks) + 2))), seg([], term("return"))]})
+                                leaves.insert(pos, S("T", first_chain))
+                                tasks[0] = {"segs": [seg([], term("yield", S("Tup", 0, leaves), True)), seg([], term("return"))]}
+                                root2 = len(tasks) + 1
+                                ys = [seg([], term("yield", S("Lst", 0, [S("I", k2)] * n2))) for _ in range(segs2)]
+                                tasks.append({"segs": ys + [seg([], term("return"))]})
+                                p = program(tasks, [kind(0, "ok"), kind(0, "ok")], calls=[{"root": 1, "conv": "call"}, {"root": root2, "conv": "value"}])
+                                p["maxstack"] = maxstack
+                                progs.append(p)
     return progs
